@@ -8,7 +8,8 @@ M_ID, K_ID = 0, 8            # g0 is the mutable base, K the constant base
 
 LINKS = ['const', 'fun-return', 'fun-local', 'fun-const-local', 'fun-if', 'fun-while', 'fun-arg', 'fun-chain']
 CONTEXTS = ['arraysize', 'range', 'scalarsize', 'global-init', 'const-init', 'template-init', 'value-arg', 'constref-arg', 'typedef-range', 'struct-array', 'select-range',
-            'template-array', 'param-range']
+            'template-array', 'param-range', 'fun-param-array', 'fun-param-range', 'fun-param-ref-array', 'fun-local-array', 'fun-local-range', 'fun-return-range',
+            'template-fun-param-array', 'block-local-array', 'iteration-range', 'quantifier-range', 'fun-param-2d-array', 'struct-field-range']
 
 
 class Chain:
@@ -98,6 +99,18 @@ def model_xml(ch, ctx, free_param=False):
     elif ctx == 'select-range': sel = 's : int[0, %s]' % e
     elif ctx == 'template-array': tdecl = 'int ctx_a[%s];\n' % e
     elif ctx == 'param-range': tparams, sysl = 'int[0, %s] pr' % e, 'P = T(1); system P;'
+    elif ctx == 'fun-param-array': g += 'void ctx_f(int pa[%s]) { }\n' % e
+    elif ctx == 'fun-param-range': g += 'void ctx_f(int[0, %s] pp) { }\n' % e
+    elif ctx == 'fun-param-ref-array': g += 'void ctx_f(int &pa[%s]) { pa[0] = 1; }\n' % e
+    elif ctx == 'fun-param-2d-array': g += 'int ctx_f(const int pa[2][%s]) { return pa[0][0]; }\n' % e
+    elif ctx == 'fun-local-array': g += 'void ctx_f() { int la[%s]; }\n' % e
+    elif ctx == 'fun-local-range': g += 'void ctx_f() { int[0, %s] lv; }\n' % e
+    elif ctx == 'fun-return-range': g += 'int[0, %s] ctx_f() { return 0; }\n' % e
+    elif ctx == 'template-fun-param-array': tdecl = 'void ctx_f(int pa[%s]) { }\n' % e
+    elif ctx == 'block-local-array': g += 'void ctx_f() { { int la[%s]; } }\n' % e
+    elif ctx == 'iteration-range': g += 'void ctx_f() { int z = 0; for (it : int[0, %s]) z += it; }\n' % e
+    elif ctx == 'quantifier-range': g += 'bool ctx_f() { return forall (qi : int[0, %s]) qi >= 0; }\n' % e
+    elif ctx == 'struct-field-range': g += 'struct { int[0, %s] fa; int fb; } ctx_s;\n' % e
     return '''<?xml version="1.0" encoding="utf-8"?>
 <nta><declaration>%s</declaration>
 <template><name>T</name><parameter>%s</parameter><declaration>%s</declaration>
